@@ -140,6 +140,24 @@ def run(tier: str, seed: int) -> Result:
             res.add(key, clause, {"harness": "lifecycle", "noise": noise, "seed_state": sd, "choices": v["choices"],
                                   "violated": v["violated"], "observations": v["observations"]})
         total.merge(st)
+    # client level: the callback given at connect time (per start_connection/connect call) - explored with the C19 client harness
+    from . import c19
+
+    cl_seeds = [("start", "tcp_ok", "finish", "hello"), ("connect", "tcp_ok", "hello"), ("start", "tcp_ok"), ()]
+    client_execs = 0
+    for i, sd in enumerate(cl_seeds):
+        depth, bound = (3, 1) if tier == "quick" else (5, 2)
+        st = explore_parallel(c19.factory, (sd, True, False), depth=depth, bound=bound, budget_s=60.0 if tier == "quick" else 600.0, split_depth=1)
+        client_execs += st.executions
+        per_cfg.append({"level": "APIClient", "seed": list(sd), "depth": depth, "deviation_bound": bound, "executions": st.executions,
+                        "states": st.states, "transitions": st.transitions, "time_capped": st.time_capped})
+        for v in st.violations:
+            clause = v["violated"][0]
+            res.add("client:" + ":".join(clause.split(":")[:3])[:80], clause, {"harness": "c19-client", "seed": list(sd), "c07": True,
+                                                                              "choices": v["choices"], "violated": v["violated"], "observations": v["observations"]})
+        total.time_capped = total.time_capped or st.time_capped
+        total.executions += st.executions
+        total.transitions += st.transitions
     stops_true = sum(n for k, n in total.outcomes.items() if "stops=[True]" in k)
     stops_false = sum(n for k, n in total.outcomes.items() if "stops=[False]" in k)
     stops_none = sum(n for k, n in total.outcomes.items() if "stops=[]" in k)
@@ -163,12 +181,18 @@ def run(tier: str, seed: int) -> Result:
         "ambiguous zone accepted with either argument: disconnect() called while a connect phase was still in flight and not yet "
         "written its request; a device disconnect request that arrived but was preceded in its chunk by a frame that closes/writes",
         "'established' = the per-callback monitor saw the CONNECTED state",
+        "client level: every start_connection/connect call passes its own callback; only the callback of the call that owns the session may "
+        "be invoked, once, and the callback of a refused call never",
     ]
     return res
 
 
 def replay(rp: dict[str, Any]) -> bool:
     d = rp["detail"]
+    if d.get("harness") == "c19-client":
+        from . import c19
+
+        return c19.replay(rp)
     h = factory(d["noise"], d["seed_state"])
     w = h.fresh()
     try:
